@@ -121,6 +121,15 @@ CHECKS = {
         "Witness templates are fixed per setting with generated numbers/aliquots; a setting that bites through no channel on a witness is reported as a harness error, not a violation.",
         "DESIGN.md section 4 C13",
     ),
+    "C14": (
+        "model-based generation of operation histories (Hypothesis, one shrinkable value per history); snapshot invariants + fresh-object differential",
+        "Histories of parse(commit), parse_tracts, preprocess, config assignment, sort and filter calls are applied to one PLSSDesc or Tract "
+        "whose text raises tract- and description-level flags. After each step a deep snapshot of every public attribute must be unchanged "
+        "for commit=False calls, equal to a freshly constructed object given the accumulated settings for committed ones, and unchanged by "
+        "an immediate identical re-parse.",
+        "Flags compared as multisets; every .config assignment restates all settings still wanted.",
+        "DESIGN.md section 4 C14",
+    ),
 }
 
 NOT_BUILT = {}
